@@ -199,7 +199,9 @@ def render_sdl(schema, rng=None, order=None, extend=False, comments=False, multi
         out.append("# generated schema - commentaire é\n")
     roots = s.roots
     default_names = roots["query"] == "Query" and roots.get("mutation") in (None, "Mutation") and roots.get("subscription") in (None, "Subscription")
-    if s.d.get("schema_block") or not default_names:
+    # an ordinary type that happens to carry a default root name is only not-a-root when the roots are spelt out
+    decoy = any(n in s.types and roots.get(k) != n for k, n in (("query", "Query"), ("mutation", "Mutation"), ("subscription", "Subscription")))
+    if s.d.get("schema_block") or not default_names or decoy:
         parts = ["query: %s" % roots["query"]]
         if roots.get("mutation"):
             parts.append("mutation: %s" % roots["mutation"])
@@ -220,14 +222,20 @@ def render_sdl(schema, rng=None, order=None, extend=False, comments=False, multi
             fields = list(d["fields"])
             impl = list(d.get("implements", []))
             ext_f = []
+            ext_impl = []
             if extend and rng is not None and len(fields) >= 2 and rng.random() < 0.5:
                 # keep order: the tail goes to the extension, so the field order is unchanged
                 cut = rng.randint(1, len(fields) - 1)
                 fields, ext_f = fields[:cut], fields[cut:]
+                if impl and rng.random() < 0.6:
+                    # `extend type T implements I { .. }`: some interfaces arrive with the extension
+                    k = rng.randint(1, len(impl))
+                    impl, ext_impl = impl[: len(impl) - k], impl[len(impl) - k:]
             impl_s = (" implements " + " & ".join(impl)) if impl else ""
             out.append(desc + "type %s%s {%s%s\n}" % (n, impl_s, sep, sep.join(_field_sdl(f) for f in fields)))
             if ext_f:
-                ext_blocks.append("extend type %s {%s%s\n}" % (n, sep, sep.join(_field_sdl(f) for f in ext_f)))
+                ext_impl_s = (" implements " + " & ".join(ext_impl)) if ext_impl else ""
+                ext_blocks.append("extend type %s%s {%s%s\n}" % (n, ext_impl_s, sep, sep.join(_field_sdl(f) for f in ext_f)))
         elif k == "union":
             out.append(desc + "union %s = %s" % (n, " | ".join(d["members"])))
         elif k == "input":
